@@ -195,32 +195,55 @@ def sparse_boundary_series(rng, p, target_offset_slots, nsec_extra=3):
     return n_dense
 
 def fam_boundary(rng, tier, i):
-    """files larger than the 16 KiB buffers with sections at every offset around the boundaries,
-    including two consecutive boundaries that both split a section (C01 C06 C12)"""
-    p = rng.choice([0, 1, 2, 3, 4, 6, 14] if tier == "thorough" else [0, 1, 2, 3, 4, 14])
+    """files larger than the 16 KiB buffers with a section starting at every slot offset around the
+    first buffer boundary (enumerated by i, not drawn) and a second one around the next boundary,
+    so that two consecutive boundaries can both split a section (C01 C06 C12)"""
+    combos = [(p, off) for p in (0, 1, 2, 3, 4, 14) for off in range(-K(p) - 1, 2)]
+    p, off1 = combos[i % len(combos)]
     L = p + 2
     Kp = K(p)
     chunk = ((16384 + L - 1) // L) * L
     cs = chunk // L                     # slots per chunk
-    off1 = rng.randrange(-Kp - 1, 2)    # section start relative to boundary 1 (in slots)
     off2 = rng.randrange(-Kp - 1, 2)
-    base = rng.choice([1000, 2**32 + 5, 2**48 + 7])
+    base = rng.choice([1000, 2**32 + 5, 2**48 + 7, 2**63 + 11])
+    # timestamps with 0xFFFF words would fall into the known marker class on reopen
     s = [new_line("b", p)]
-    # section A at slot 0 (K slots), dense run of nA lines so that section B starts at cs + off1
     nA = cs + off1 - Kp
     s.append("pushseq %d 1 %d %d" % (base, nA, rng.randrange(256)))
     tB = base + nA + 70000
-    # the reader carries overlap: the second boundary for the *reader* is at cs*2 relative to its own
-    # reads; for the index rebuild likewise. Section C at 2*cs + off2
-    nB = (2 * cs + off2) - (cs + off1) - Kp
+    # the reader starts at the first line (after section A): its buffers end at slot Kp + k*cs; the index
+    # rebuild starts at slot 0. off1/off2 are relative to the rebuild's boundaries; add Kp for the reader's
+    shift = rng.choice([0, Kp])
+    nB = (2 * cs + off2 + shift) - (cs + off1) - Kp
     s.append("pushseq %d 1 %d %d" % (tB, nB, rng.randrange(256)))
     tC = tB + nB + 70000
     s.append("pushseq %d 3 %d %d" % (tC, rng.randrange(1, 40), rng.randrange(256)))
     s += ["len", "range", "last_line", "n_lines u u", "read_all u u"]
-    s += ["read_all i%d i%d" % (tB - 5, tC + 2), "read_first_n 3 i%d u" % (tB - 1)]
+    s += ["read_all i%d i%d" % (tB - 5, tC + 2), "read_first_n 3 i%d u" % (tB - 1), "read_n 7 u u"]
     s += ["close", "fs_rm index:b", open_line("b"), "len", "range", "read_all u u",
-          "read_all i%d u" % (tC - 1), "push %d %s" % (tC + 10**6, hexb(payload(rng, p))), "read_all i%d u" % tC, "close"]
+          "read_all i%d u" % (tC - 1), "push %d %s" % (tC + 10**6, hexb(payload(rng, p))), "read_all i%d u" % tC, "close",
+          "fs_cut index:b 16", open_line("b"), "len", "push %d %s" % (tC + 2 * 10**6, hexb(payload(rng, p))), "read_all i%d u" % tC, "close", "dump"]
     return {"family": "boundary", "lines": s, "tags": {"p%d" % p, "big"}}
+
+def fam_boundary_reader(rng, tier, i):
+    """the reader's own boundaries: its first buffer starts after the first section, so a section
+    starting `off` slots around slot K + k*chunk_slots is split by the k-th buffer end (C01)"""
+    combos = [(p, off) for p in (0, 1, 2, 3, 4, 9) for off in range(-K(p) - 1, 2)]
+    p, off1 = combos[i % len(combos)]
+    L = p + 2
+    Kp = K(p)
+    cs = (((16384 + L - 1) // L) * L) // L
+    base = rng.choice([7, 2**40 + 1, 2**56 + 3])
+    nA = cs + off1          # lines after section A until section B starts: slot index Kp + nA = Kp + cs + off1
+    s = [new_line("v", p), "pushseq %d 1 %d %d" % (base, nA, rng.randrange(256))]
+    tB = base + nA + 65535 + rng.randrange(0, 1000)
+    off2 = rng.randrange(-Kp - 1, 2)
+    nB = (cs + off2) - off1 - Kp
+    s.append("pushseq %d 1 %d %d" % (tB, nB, rng.randrange(256)))
+    tC = tB + nB + 65535 + rng.randrange(0, 1000)
+    s.append("pushseq %d 2 %d %d" % (tC, rng.randrange(1, 10), rng.randrange(256)))
+    s += ["read_all u u", "len", "read_n 5 u u", "read_first_n %d u u" % (nA + 2), "close", open_line("v"), "read_all u u", "last_line", "close"]
+    return {"family": "boundary_reader", "lines": s, "tags": {"p%d" % p, "big"}}
 
 def fam_sparse_boundary(rng, tier, i):
     """sparse series (every line its own section) crossing two buffer boundaries: every
@@ -240,7 +263,10 @@ def fam_ranges(rng, tier, i):
     p = rng.choice(SMALL_P)
     n = rng.choice([1, 2, 3, 5, 8, 12])
     lines = mk_lines(rng, p, n, shape=rng.choice(["edge", "mixed", "sparse", "jitter"]))
+    if not lines:
+        lines = mk_lines(rng, p, n, shape="jitter", base=5)
     tss = [t for t, _ in lines]
+    n = len(tss)
     s = [new_line("r", p)] + push_lines(lines)
     for lo, hi in bounds_critical(rng, tss, 14 if tier == "quick" else 40):
         k = rng.random()
@@ -250,24 +276,38 @@ def fam_ranges(rng, tier, i):
             s.append("read_first_n %d %s %s" % (rng.choice([1, 1, 2, 3, n, n + 1]), lo, hi))
         else:
             s.append("n_lines %s %s" % (lo, hi))
-    # paging with Incl(last+1) and Excl(last)
+    # paging with Incl(last+1) and Excl(last): every page, then one page past the end
     page = rng.choice([1, 2, 3, n, n + 2])
     for form in ("i", "e"):
-        last = None
-        for _ in range(n // page + 2):
-            if last is None:
-                s.append("read_first_n %d u u" % page)
-                idx = 0
-            else:
-                s.append("read_first_n %d %s u" % (page, ("i%d" % (last + 1)) if form == "i" else ("e%d" % last)))
-            idx = (0 if last is None else tss.index(last) + 1) + page - 1
-            if idx >= n:
-                last = tss[-1]
-                if tss[-1] == U64 - 1 and form == "i":
+        s.append("read_first_n %d u u" % page)
+        pos = page
+        while True:
+            last = tss[min(pos, n) - 1]
+            if form == "i":
+                if last + 1 >= U64:
                     break
+                s.append("read_first_n %d i%d u" % (page, last + 1))
             else:
-                last = tss[idx]
+                s.append("read_first_n %d e%d u" % (page, last))
+            if pos >= n:
+                break
+            pos += page
     return {"family": "ranges", "lines": s, "tags": {"p%d" % p}}
+
+def fam_bigsection(rng, tier, i):
+    """one section larger than 64 KiB; bounds that resolve beyond the first 64 KiB of it (C02 C13 C14)"""
+    p = rng.choice([1022, 2046])
+    n = (65536 // (p + 2)) + rng.randrange(3, 12)
+    base = rng.choice([10, 2**35])
+    step = rng.choice([1, 3])
+    s = [new_line("u", p), "pushseq %d %d %d %d" % (base, step, n, rng.randrange(256)), "push %d %s" % (base + step * n + 70000, hexb(payload(rng, p)))]
+    for _ in range(6):
+        a = base + step * rng.randrange(n - 8, n)
+        b = base + step * rng.randrange(n - 8, n + 2)
+        lo, hi = min(a, b), max(a, b)
+        s.append(rng.choice(["read_all i%d i%d" % (lo, hi), "read_all e%d u" % lo, "n_lines i%d i%d" % (lo, hi), "read_first_n 2 i%d u" % lo, "read_all u i%d" % hi]))
+    s += ["read_all i%d u" % (base + step * (n - 2)), "len"]
+    return {"family": "bigsection", "lines": s, "tags": {"bigp"}}
 
 def fam_refuse(rng, tier, i):
     """valid / equal / older / wrong-length appends interleaved with reopen and torn tails (C03 C16)"""
@@ -302,23 +342,36 @@ def fam_reopen(rng, tier, i, marker=False):
         lines = mk_lines(rng, p, n, no_marker=True)
     hdr = bytes(rng.randrange(256) for _ in range(rng.choice([0, 3])))
     s = [new_line("o", p, hdr)]
+    done = []
     for t, pay in lines:
         s.append("push %d %s" % (t, hexb(pay)))
-        if rng.random() < 0.6:
-            s += ["close", open_line("o", rng.choice(["any", p]), rng.choice(["any", hdr])), "read_all u u"] + rng.sample(ACCESSORS, 3)
-    s += ["close", open_line("o"), "read_all u u"] + ACCESSORS
+        done.append(t)
+        r = rng.random()
+        if r < 0.5:
+            s += ["close", open_line("o", rng.choice(["any", p]), rng.choice(["any", hdr]))]
+            # a read or a count that ends before the last line, then the next push must still append
+            a = rng.choice(done); b = rng.choice(done)
+            s.append(rng.choice(["read_all i%d i%d" % (min(a, b), max(a, b)), "n_lines i%d i%d" % (min(a, b), max(a, b)),
+                                 "read_first_n 1 u u", "read_all u u", "read_n 2 u i%d" % max(a, b)]))
+            s += rng.sample(ACCESSORS, 2)
+        elif r < 0.7 and len(done) > 1:
+            s.append(rng.choice(["read_all u i%d" % done[len(done) // 2], "n_lines u e%d" % done[-1], "read_first_n 1 u u"]))
+    s += ["read_all u u", "close", open_line("o"), "read_all u u"] + ACCESSORS
     return {"family": "reopen_marker" if marker else "reopen", "lines": s, "tags": {"p%d" % p} | ({"marker"} if marker else set())}
 
 def fam_reopen_marker(rng, tier, i):
     return fam_reopen(rng, tier, i, marker=True)
 
 def fam_bigline(rng, tier, i):
-    """line sizes around and above the 5000 / 10000 byte thresholds of the backwards search (C04 C19)"""
-    p = rng.choice([4990, 4998, 4999, 5000, 5010, 9998, 10000, 10002, 16382, 16384, 20000] if tier == "thorough" else [4998, 5000, 9998, 10002, 16384])
-    n = rng.choice([1, 2, 4])
-    s = [new_line("g", p), "pushseq %d %d %d %d" % (rng.choice([5, 2**33]), rng.choice([1, 70000]), n, rng.randrange(256)),
-         "len", "close", open_line("g"), "len", "range", "n_lines u u", "close",
-         "fs_rm index:g", open_line("g"), "len", "close"]
+    """line sizes around the thresholds of the internal buffers: 5000 / 10000 (backwards search window),
+    8192..16384 (two lines per 16 KiB buffer) and above 16384 (one line per buffer) (C04 C19 C01)"""
+    sizes = [4998, 5000, 8190, 9000, 9998, 10002, 16381, 16382, 16384, 20000] if tier == "thorough" else [4998, 5000, 9000, 10002, 16382, 16384]
+    p = sizes[i % len(sizes)]
+    k = rng.choice([1, 2, 3])
+    s = [new_line("g", p), "pushseq %d %d %d %d" % (rng.choice([5, 2**33]), rng.choice([1, 70000]), k, rng.randrange(256)),
+         "pushseq %d 70000 %d %d" % (2**34, rng.choice([1, 2]), rng.randrange(256)),
+         "len", "read_all u u", "close", open_line("g"), "len", "range", "last_line", "n_lines u u", "read_all u u", "read_n 2 u u", "close",
+         "fs_rm index:g", open_line("g"), "len", "range", "last_line", "close"]
     return {"family": "bigline", "lines": s, "tags": {"bigp"}}
 
 def header_len_guess(p, hdr):
@@ -333,14 +386,20 @@ def fam_torn(rng, tier, i, no_marker=True):
     s = [new_line("t", p)] + push_lines(lines) + ["close"]
     cycles = 1 if tier == "quick" else rng.choice([1, 2, 3])
     for c in range(cycles):
-        cut_back = rng.randrange(0, min(region, (K(p) + 3) * (p + 2)) + 1) if rng.random() < 0.8 else rng.randrange(0, region + 1)
+        r0 = rng.random()
+        if r0 < 0.6:
+            cut_back = rng.randrange(0, min(region, (K(p) + 3) * (p + 2)) + 1)
+        elif r0 < 0.8:
+            cut_back = min(region, rng.randrange(2, 4) * (K(p) + 1) * (p + 2) + rng.randrange(0, 2 * (p + 2)))   # two or three sparse sections
+        else:
+            cut_back = rng.randrange(0, region + 1)
         # fs_patch cannot truncate; use the absolute length through a size probe: the generator does not
         # know the header length, so cuts are expressed relative to the end with fs_cut
         s.append("fs_cut data:t %d" % cut_back)
         st = rng.random()
-        if st < 0.25:
-            pass                                   # index intact (ahead of the data)
-        elif st < 0.45:
+        if st < 0.35:
+            pass                                   # index intact (ahead of the data, possibly by several entries)
+        elif st < 0.5:
             s.append("fs_rm index:t")
         elif st < 0.7:
             s.append("fs_cut index:t %d" % rng.randrange(0, 40))
@@ -485,7 +544,14 @@ def fam_resample(rng, tier, i):
     big = rng.random() < 0.4
     base = (U64 - 1 - rng.randrange(0, 1000) - n * 70000) if big else None
     lines = mk_lines(rng, p, n, base=base)
+    if rng.random() < 0.25:
+        # spread: a few lines spanning most of the u64 range, so that one bucket's sum of timestamps
+        # (or of distances) exceeds 64 bits
+        cand = sorted(set([rng.randrange(0, 1000), 2**40 + rng.randrange(1000), 2**63 + rng.randrange(1000), U64 - 1 - rng.randrange(1, 2000), U64 - 1 - rng.randrange(2001, 4000), 2**62]))
+        lines = [(t, payload(rng, p)) for t in cand][:max(3, n)]
+        big = True
     tss = [t for t, _ in lines]
+    n = len(tss)
     s = [new_line("n", p)] + push_lines(lines)
     for lo, hi in bounds_critical(rng, tss, 8):
         s.append("read_n %d %s %s" % (rng.choice([1, 2, 3, n, n + 1, 2 * n, 10**6]), lo, hi))
@@ -501,7 +567,7 @@ def fam_contract(rng, tier, i):
     s = [open_line("m", "any", "any"), new_line("m", p, hdr), "push 5 %s" % hexb(payload(rng, p)), "close",
          new_line("m", p, hdr), new_line("m", q, hdr2),
          open_line("m", p, hdr, ext=1), "len", "close", open_line("m", "any", "any", ext=0), "payload_size", "close",
-         open_line("m", q, "any"), open_line("m", p, hdr2), open_line("m", "any", hdr + b"\x01"),
+         open_line("m", q, "any"), open_line("m", p, hdr2), open_line("m", "any", hdr + b"\x01"), open_line("m", "any", b""), open_line("m", p, hdr[:-1] if hdr else b"\x00"),
          open_line("zz", "any", "any", ext=1), "dump"]
     r = rng.random()
     if r < 0.3:
@@ -580,7 +646,7 @@ def fam_totality(rng, tier, i):
     return {"family": "totality", "lines": s, "tags": {"p%d" % p}}
 
 FAMILIES = {f.__name__[4:]: f for f in [
-    fam_roundtrip, fam_boundary, fam_sparse_boundary, fam_ranges, fam_refuse, fam_reopen, fam_reopen_marker,
+    fam_roundtrip, fam_boundary, fam_boundary_reader, fam_bigsection, fam_sparse_boundary, fam_ranges, fam_refuse, fam_reopen, fam_reopen_marker,
     fam_bigline, fam_torn, fam_index_states, fam_format, fam_assets, fam_caches, fam_caches_reopen,
     fam_caches_faults, fam_cache_sections, fam_resample, fam_contract, fam_corrupt, fam_totality]}
 
